@@ -27,6 +27,9 @@ def cfg : Cfg :=
     flagsTimeout := Gen.C15.flagsTimeout
     flagsBlocking := Gen.C15.flagsBlocking
     rcBeforeCb := Gen.C15.rcBeforeCb
-    goneBeforeCb := Gen.C15.goneBeforeCb }
+    goneBeforeCb := Gen.C15.goneBeforeCb
+    pollAsksHook := Gen.C15.pollAsksHook
+    hookDefaultIsKill := Gen.C15.hookDefaultIsKill
+    linuxWaitPassesNoHook := Gen.C15.linuxWaitPassesNoHook }
 
 end Psutil.C15
